@@ -675,8 +675,9 @@ class GMM:
             covariance = np.array([1.0 / self.prior_scale[k]
                                    for k in range(self.k)])
             covariance += empcov
-            dx = np.reshape(empmeans - self.prior_means, (self.k, self.dim, 1))
-            addcov = np.array([np.sum(dx[k] ** 2, 0) for k in range(self.k)])
+            # per-axis squared distance (the diagonal of dx dx^T used by the
+            # 'full' branch)
+            addcov = (empmeans - self.prior_means) ** 2
             apms = np.reshape(prior_shrinkage * pop / shrinkage, (self.k, 1))
             covariance += addcov * apms
             dof = self.prior_dof + pop + self.dim + 2
